@@ -35,7 +35,18 @@
 (*        record itself is, "insec" nothing is; tlsaC is the outcome of   *)
 (*        the lookup under the canonical name.  EffTLSA is the discovery  *)
 (*        rule of RFC 7672 section 2.2.2.                                  *)
-(* msg  = [reqtls, tlsno, quar, mailfail, qlate, na, pre : BOOLEAN]       *)
+(*         res : Seq([loop : BOOLEAN, fail : SUBSET {"MX", "HOST"}])]      *)
+(*        res is the resolver list of the DNSSEC-aware stub resolver, in   *)
+(*        the order the servers are asked: loop = the server's address is  *)
+(*        on the loopback interface, fail = the classes of queries it does *)
+(*        not answer (SERVFAIL): "MX" the MX query of the recipient domain,*)
+(*        "HOST" every query about an MX host (addresses, CNAME, TLSA).    *)
+(*        adMX, tlsa, cn, tlsaC are what the ANSWERING server claims; an   *)
+(*        AD flag is evidence of DNSSEC validation only when it comes from *)
+(*        a loopback server (docs: "a DNSSEC-validating LOCAL resolver";   *)
+(*        a flag received over the network can be forged), see Trusted.    *)
+(* msg  = [reqtls, tlsno, quar, mailfail, qlate, na, pre : BOOLEAN,        *)
+(*         late : "no"|"none"|"testing"|"match"]                           *)
 (* conn = [mx : index, tls : "none"|"enc-unauth"|"enc-auth", cert]        *)
 (*        "enc-auth": handshake completed on a certificate that is valid  *)
 (*        for the MX name under the trusted CA (PKIX).                    *)
@@ -48,8 +59,25 @@ EXTENDS Naturals, Sequences, FiniteSets
 (* PartialDelivery.BodyNonAtomic instead of Body                                      *)
 (* pre: the message has an earlier recipient in ANOTHER domain whose MX is fully      *)
 (* authenticated but does not offer the REQUIRETLS extension (relaxed_requiretls)     *)
+(* late: the message has an earlier recipient in ANOTHER domain whose MX lookup fails    *)
+(* (that recipient is refused) while the MTA-STS policy lookup started for it is still  *)
+(* unanswered; it answers once delivery to this domain has begun - before this domain's *)
+(* own policy lookup - with: "none" no policy, "testing" a testing-mode policy,         *)
+(* "match" an enforce-mode policy that lists the MX candidates of THIS domain (what a   *)
+(* domain controlled by whoever spoofed this domain's MX answer would publish).  The    *)
+(* requirements on the connection do not depend on it: PolicyOK never reads the field.  *)
 NoMsg == [reqtls |-> FALSE, tlsno |-> FALSE, quar |-> FALSE, mailfail |-> FALSE, qlate |-> FALSE, na |-> FALSE,
-          pre |-> FALSE]
+          pre |-> FALSE, late |-> "no"]
+
+(* ---- which resolver answers, and whether its AD flag means anything ---- *)
+DefaultRes == <<[loop |-> TRUE, fail |-> {}]>>
+RECURSIVE FirstAnswering(_, _, _)
+FirstAnswering(rs, q, i) == IF i > Len(rs) THEN 0
+                            ELSE IF q \notin rs[i].fail THEN i ELSE FirstAnswering(rs, q, i + 1)
+Answering(cfg, q) == FirstAnswering(cfg.res, q, 1)
+Trusted(cfg, q) == Answering(cfg, q) # 0 /\ cfg.res[Answering(cfg, q)].loop
+(* the MX RRset is DNSSEC-authenticated *)
+AdMX(cfg) == cfg.adMX /\ Trusted(cfg, "MX")
 
 (* policies in force for a message: void only under TLS-Required: No with *)
 (* the override enabled                                                    *)
@@ -73,21 +101,24 @@ UsableTLSA(t) == t \in {"ee_match", "ta_match", "mismatch"}
 (* trust anchor AND the right name (RFC 7672 3.1.1 / 3.1.2)               *)
 DaneMatch(t, cert) == t = "ee_match" \/ (t = "ta_match" /\ cert = "valid")
 
+(* ... as far as the facts about the host are authenticated at all *)
+EffTLSAc(cfg, f) == IF Trusted(cfg, "HOST") THEN EffTLSA(f) ELSE "insecure"
+
 TLSAuth(cfg, P, f) ==
   \/ PKIXAuth(f)
-  \/ "dane" \in P /\ Encrypted(f) /\ DaneMatch(EffTLSA(cfg.mx[f.mx]), f.cert)
+  \/ "dane" \in P /\ Encrypted(f) /\ DaneMatch(EffTLSAc(cfg, cfg.mx[f.mx]), f.cert)
 
 (* documented security levels (docs/seclevels.md) *)
 TLSLevelOf(cfg, P, f) == IF TLSAuth(cfg, P, f) THEN 2 ELSE IF Encrypted(f) THEN 1 ELSE 0
 MXLevelOf(cfg, P, i) ==
-  IF "dnssec" \in P /\ cfg.adMX THEN 2
+  IF "dnssec" \in P /\ AdMX(cfg) THEN 2
   ELSE IF "mtasts" \in P /\ cfg.sts # "none" /\ cfg.mx[i].stsMatch THEN 1
   ELSE 0
 
 (* the clauses of the statement, one name each *)
 Clauses(cfg, m, f) ==
   LET P == InForce(cfg, m)
-      t == EffTLSA(cfg.mx[f.mx]) IN
+      t == EffTLSAc(cfg, cfg.mx[f.mx]) IN
   [ Quarantined |-> ~m.quar,
     MTASTS      |-> ("mtasts" \in P /\ cfg.sts = "enforce") => (cfg.mx[f.mx].stsMatch /\ PKIXAuth(f)),
     DANE        |-> ("dane" \in P /\ UsableTLSA(t)) => (Encrypted(f) /\ DaneMatch(t, f.cert)),
@@ -106,7 +137,7 @@ DiscoveryFailure(cfg, m) ==
   /\ \/ cfg.dns = "servfail"
      \/ /\ "dane" \in P
         /\ \A i \in 1..Len(cfg.mx) :
-             /\ EffTLSA(cfg.mx[i]) = "servfail"
+             /\ EffTLSAc(cfg, cfg.mx[i]) = "servfail"
              /\ ~("mtasts" \in P /\ cfg.sts = "enforce" /\ ~cfg.mx[i].stsMatch)
 
 ObsInit == [msg |-> NoMsg, n |-> 0, viol |-> {}]
